@@ -714,6 +714,13 @@ def _cases(tier, kind):
                 vn = ("plain", "ign1", "sc05", "sc0")[salt % 4]
                 ign, sc = variant(vn, have, salt)
                 yield dict(edges=[[u, v, None] for u, v in E], nodes=nl, mode="node", wt=wt, k=k, ign=ign, sc=sc, fam="dag/node/" + vn)
+    # ---- bottleneck: b heavy branches enter and leave one light edge; with k = b routes the best solution overshoots the light edge by
+    #      more than the largest single value (per-element error above max value; needs the k factor in the variables' upper bounds)
+    for b, heavy, light in ((2, 2, 0), (3, 2, 0)) if tier == "quick" else ((2, 2, 0), (2, 3, 1), (3, 2, 0), (3, 3, 1)):
+        E = [["a%d" % i, "m", heavy] for i in range(b)] + [["m", "n", light]] + [["n", "b%d" % i, heavy] for i in range(b)]
+        for cyc in (False, True):
+            for wt in ("int", "float"):
+                yield dict(edges=[[u, v, (float(x) if wt == "float" else x)] for u, v, x in E], wt=wt, k=b, fam="bottleneck", **({"cyc": True} if cyc else {}))
     # ---- cyclic model
     for w in WITNESSES:
         yield dict(w, fam="cyc/witness")
